@@ -5,8 +5,10 @@ import (
 	"math/rand"
 	"strings"
 
+	"github.com/opsidian/parsley/data"
 	"github.com/opsidian/parsley/parsley"
 	"github.com/opsidian/parsley/text"
+	"github.com/opsidian/parsley/text/terminal"
 
 	"verifharness/internal/gram"
 	"verifharness/internal/run"
@@ -176,6 +178,7 @@ func c11exec(j run.Job, a *run.Acc) {
 			longAt = r.Intn(k)
 		}
 		var raws [][]byte
+		strFile, strAt := -1, -1
 		for i := 0; i < k; i++ {
 			var b []byte
 			if r.Intn(5) != 0 { // empty files are common
@@ -196,6 +199,12 @@ func c11exec(j run.Job, a *run.Acc) {
 						b = append(b, c11alpha[r.Intn(len(c11alpha))]...)
 					}
 				}
+			}
+			if strAt < 0 && r.Intn(16) == 0 {
+				// the file holds a string literal with escapes, and it is PARSED (terminal.String at that offset) before any
+				// position is asked for: parsing reads a file, it must not change what its positions mean
+				strFile, strAt = i, len(specNormalise(b))
+				b = append(append(b, `"one\ntwo\tx"`...), "\nb"...)
 			}
 			raws = append(raws, b)
 		}
@@ -284,6 +293,17 @@ func c11exec(j run.Job, a *run.Acc) {
 			return m
 		}
 		a.Count("file sets", 1)
+		if strFile >= 0 && strFile < len(files) {
+			func() {
+				defer func() { recover() }()
+				f := files[strFile]
+				ctx := parsley.NewContext(fs, text.NewReader(f))
+				n, _, _ := terminal.String(nil, false).Parse(ctx, data.EmptyIntMap, f.Pos(strAt))
+				if n != nil {
+					a.Count("file sets in which a string literal with escapes was parsed before the lookups", 1)
+				}
+			}()
+		}
 		if scale == 0 {
 			a.Count("file sets with 15-300 files", 1)
 		}
